@@ -315,7 +315,9 @@ func C15(c *Ctx) {
 		// an unrelated in-package test file and an external test package: the package is loaded a second time as its test variant
 		e6Config{name: "with-unrelated-test-files-in-the-package", files: files, extra: map[string]string{
 			"p/unrelated_test.go": "package p\n\nimport \"testing\"\n\nfunc TestUnrelated(t *testing.T) { _ = SharedG }\n",
-			"p/external_test.go":  "package p_test\n\nimport \"testing\"\n\nfunc TestExternal(t *testing.T) {}\n"}},
+			"p/external_test.go":  "package p_test\n\nimport \"testing\"\n\nfunc TestExternal(t *testing.T) {}\n",
+			// ... and an in-package test file that uses the API itself (it is processed, so the optimise stage sees the test variant too)
+			"p/uses_api_test.go": "package p\n\nimport (\n\t\"testing\"\n\n\t. \"github.com/goghcrow/go-co\"\n)\n\nfunc testOnlyGen() Iter[int] {\n\tYield(1)\n\treturn nil\n}\n\nfunc TestUsesAPI(t *testing.T) {\n\tfor v := range testOnlyGen() {\n\t\t_ = v\n\t}\n}\n"}},
 		// the file that declares the shared constants / variables is processed in the same invocation (it uses the API itself)
 		e6Config{name: "declaring-file-is-processed-too", files: files, extra: map[string]string{"p/shared.go": e6SharedWithGenerator}},
 		// subsets: the files are visited at other POSITIONS of the invocation (first instead of k-th)
